@@ -6,6 +6,7 @@
 From Coq Require Import ZArith List Lia Bool.
 From LZ4V Require Import Spec.BlockSpec Spec.XXH32 Spec.FrameSpec Gen.Consts Model.FrameD Model.Io Model.IoLz4f.
 From LZ4V Require Import Proofs.FrameDProofs Proofs.FrameDChunk Proofs.FrameDHint Proofs.FrameDHintProofs Proofs.IoLz4fRefine.
+From LZ4V Require Proofs.FileDecInst.
 Import ListNotations.
 Local Open Scope Z_scope.
 
@@ -264,5 +265,23 @@ Section Exact.
       [ | | exact Hs | exact Hb | exact V | exact H ].
     - split; [exact wf_init|]. repeat split; reflexivity.
     - exact (first_call_init bdec).
+  Qed.
+
+  (* what a returning loop leaves behind on [frame ++ tail]: the final source and destination of the abstract step
+     Io.lz4f_st (which reads the frame in one ERead and writes its content in one EWrite) *)
+  Theorem lz4f_st_c_return_state : forall fuel ifuel test fl d0 s s' fr tail content,
+    dctx_fresh d0 ->
+    r_consumed (snd (decompress_usingDict bdec d0 magic4 0 [] (o_first false))) = 4 ->
+    s_in s = fr ++ tail -> bytes_ok (s_in s) = true ->
+    frame_decode bdec false [] (magic4 ++ fr) = Some (content, []) ->
+    IOL_dBufferSize * Z.of_nat ifuel * Z.of_nat fuel < M64 ->
+    lz4f_st_c bdec fuel ifuel false test fl d0 s = Ret tt s' ->
+    s_in s' = tail /\ s_out s' = s_out s ++ wrote test content.
+  Proof.
+    intros fuel ifuel test fl d0 s s' fr tail content Hd H4 Hs Hb V Hsz H.
+    split; [exact (lz4f_st_c_reads_exactly fuel ifuel test fl d0 s s' fr tail content Hd H4 Hs Hb V H)|].
+    destruct (lz4f_st_c_sound bdec fuel ifuel test fl d0 s s' Hd H4 Hb Hsz H) as (c & lost & D & W).
+    pose proof (FileDecInst.frame_decode_ext bdec false [] (magic4 ++ fr) content [] tail V) as E.
+    rewrite <- app_assoc, <- Hs in E. rewrite E in D. inversion D. subst c. exact W.
   Qed.
 End Exact.
